@@ -44,6 +44,7 @@ const (
 	KSuperCall // L args
 	KSuperDot  // S name
 	KEval      // L body statements of the evaluated code (a sub-Program); FIndirect, FStrict (own directive)
+	KTagged    // A tag (callee), Q quasis (len(L)+1, plain text: cooked == raw), L substitutions
 	// ---- patterns
 	KArrPat  // L elements: KPatElem | KRest | nil (hole)
 	KObjPat  // L elements: KPatProp | KRest
@@ -77,7 +78,7 @@ const (
 )
 
 var kindNames = [...]string{"Invalid", "Program", "Num", "Str", "Bool", "Null", "Undef", "Ident", "This", "Tmpl", "Arr", "Obj", "Prop", "Func", "Class", "Member",
-	"Unary", "Update", "Bin", "Logic", "Assign", "Cond", "Seq", "Call", "New", "Dot", "Index", "Chain", "Spread", "SuperCall", "SuperDot", "Eval",
+	"Unary", "Update", "Bin", "Logic", "Assign", "Cond", "Seq", "Call", "New", "Dot", "Index", "Chain", "Spread", "SuperCall", "SuperDot", "Eval", "Tagged",
 	"ArrPat", "ObjPat", "PatElem", "PatProp", "Rest",
 	"Var", "Declr", "FuncDecl", "ClassDecl", "Expr", "If", "For", "ForIn", "ForOf", "While", "Do", "Block", "Empty", "Ret", "Break", "Cont", "Throw", "Try", "Switch", "Case", "Label", "With"}
 
